@@ -273,6 +273,23 @@ def get_attr(I, obj, name):
 
                                 return I.eval(node.value, Env(extract.get_module(c.modname)))
         I.raise_("AttributeError", name)
+    if isinstance(obj, SuperProxy):
+        mro = I.class_mro(obj.obj.cls if isinstance(obj.obj, (PObj, PExc)) else obj.obj)
+        started = False
+        for c in mro:
+            if c is obj.owner:
+                started = True
+                continue
+            if started and isinstance(c, ClassVal):
+                for node in c.node.body:
+                    if isinstance(node, (ast.FunctionDef, ast.AsyncFunctionDef)) and node.name == name:
+                        from . import extract
+
+                        f = FuncVal(node, extract.get_module(c.modname), None, f"{c.modname}:{c.name}.{name}", c)
+                        return BoundMethod(f, obj.obj)
+        if name in ("__init__", "__init_subclass__", "__setattr__"):
+            return BuiltinFn("object." + name, lambda *a, **k: None)
+        I.raise_("AttributeError", name)
     if isinstance(obj, PExc):
         if name == "args":
             return obj.args
@@ -1883,6 +1900,8 @@ def isinstance_model(I, x, cls):
         r = h(I, x, cls)
         if r is not None:
             return r
+    if getattr(cls, "name", None) in ("numbers.Real", "numbers.Number") and isinstance(cls, type):
+        return isinstance(x, (int, float, fractions.Fraction, SV, Infinity))
     if isinstance(x, (PObj, PExc)):
         if isinstance(x.cls, (ClassVal, type)):
             return I.is_subclass(x.cls, cls)
@@ -1918,8 +1937,8 @@ def isinstance_model(I, x, cls):
             return False
     # abstract classes from typing / numbers
     name = getattr(cls, "name", None)
-    if name == "numbers.Real":
-        return isinstance(x, (int, float)) and True
+    if name in ("numbers.Real", "numbers.Number"):
+        return isinstance(x, (int, float, fractions.Fraction, SV, Infinity)) and True
     raise PyvcError(f"isinstance against {cls!r} not modelled")
 
 
@@ -1952,3 +1971,124 @@ def make_modules(I):
 
 
 EXTRA_MODULES = {}
+
+
+# ------------------------------------------------------------------------------------------------
+# struct (library contract L-struct): '<' formats with H, I (definitional) and d (abstract bijection)
+
+import struct as _struct
+
+StructError = _struct.error
+isdouble = z3.Function("isdouble", _A, _I, z3.RealSort(), z3.BoolSort())
+fdouble = z3.Function("fdouble", _A, _I, z3.RealSort())
+LIBRARY_CONTRACTS["L-struct"] = (
+    "struct.pack/unpack with '<' formats: H and I are little-endian unsigned (definitional); 'd' is an 8-byte "
+    "encoding with unpack(pack(x)) == x (isdouble(D,off,x) => fdouble(D,off) == x); wrong buffer size raises struct.error"
+)
+
+
+def struct_axioms(eng):
+    D = z3.Const("D!sx", _A)
+    off = z3.Int("off!sx")
+    x = z3.Real("x!sx")
+    eng.add_axiom("L-struct.double", z3.ForAll([D, off, x], z3.Implies(isdouble(D, off, x), fdouble(D, off) == x)))
+
+
+def _fmt_codes(fmt):
+    if not isinstance(fmt, str) or not fmt.startswith("<"):
+        raise PyvcError(f"struct format {fmt!r} not modelled")
+    sizes = {"H": 2, "I": 4, "d": 8, "B": 1}
+    codes = []
+    for ch in fmt[1:]:
+        if ch not in sizes:
+            raise PyvcError(f"struct code {ch!r} not modelled")
+        codes.append((ch, sizes[ch]))
+    return codes
+
+
+def struct_pack(I, fmt, *vals):
+    codes = _fmt_codes(fmt)
+    if len(vals) != len(codes):
+        raise SymRaiseLater(StructError, "pack expected %d items" % len(codes))
+    struct_axioms(I.eng)
+    arr = I.eng.fresh_array("packed")
+    k = z3.Int("k!pk")
+    I.eng.assume(z3.ForAll([k], z3.And(z3.Select(arr, k) >= 0, z3.Select(arr, k) <= 255)))
+    off = 0
+    facts = []
+    for (ch, size), v in zip(codes, vals):
+        if ch == "d":
+            if not (is_scalar(v)):
+                I.raise_("TypeError", "required argument is not a float")
+            zv = toz3(v, want_real=True)
+            I.eng.assume(isdouble(arr, off, zv))
+            facts.append(lambda D, p, o=off, zv=zv: isdouble(D, tonum(p) + o, zv))
+        else:
+            if isinstance(v, SV) and v.isfloat or isinstance(v, float):
+                raise SymRaiseLater(StructError, "required argument is not an integer")
+            ok = sv_and(compare("<=", 0, v), compare("<", v, 256**size))
+            if not I.decide(ok):
+                raise SymRaiseLater(StructError, "argument out of range")
+            for t in range(size):
+                I.eng.assume(z3.Select(arr, off + t) == (tonum(v) / (256**t)) % 256)
+        off += size
+    out = SBytes(arr, off, 0)
+    out.facts = facts
+    return out
+
+
+class SymRaiseLater(Exception):
+    def __init__(self, cls, *args):
+        self.cls, self.args_ = cls, args
+
+
+def struct_unpack(I, fmt, b):
+    codes = _fmt_codes(fmt)
+    total = sum(sz for _, sz in codes)
+    b = to_sbytes(b)
+    if not I.decide(compare("==", b.length, total)):
+        raise SymRaiseLater(StructError, "unpack requires a buffer of %d bytes" % total)
+    struct_axioms(I.eng)
+    out = []
+    off = tonum(b.off)
+    for ch, size in codes:
+        if ch == "d":
+            out.append(SV(fdouble(b.arr, off), True))
+        else:
+            out.append(SV(z3.Sum([z3.Select(b.arr, off + t) * (256**t) for t in range(size)])))
+        off = off + size
+    return tuple(out)
+
+
+def _make_struct(I):
+    from .interp import BuiltinFn, SymRaise
+
+    def wrap(f):
+        def g(*a):
+            try:
+                return f(I, *a)
+            except SymRaiseLater as e:
+                raise SymRaise(PExc(e.cls, e.args_))
+
+        return g
+
+    return NativeModule("struct", {"pack": BuiltinFn("pack", wrap(struct_pack)), "unpack": BuiltinFn("unpack", wrap(struct_unpack)), "error": StructError, "calcsize": BuiltinFn("calcsize", lambda fmt: sum(s for _, s in _fmt_codes(fmt)))})
+
+
+EXTRA_MODULES["struct"] = _make_struct
+
+
+class NumbersReal:
+    name = "numbers.Real"
+
+
+class NumbersNumber:
+    name = "numbers.Number"
+
+
+EXTRA_MODULES["numbers"] = lambda I: NativeModule("numbers", {"Real": NumbersReal, "Number": NumbersNumber})
+
+
+class SuperProxy:
+    def __init__(self, obj, owner):
+        self.obj, self.owner = obj, owner
